@@ -646,6 +646,21 @@ CAMPAIGNS['C14'].append(
          mode='oserror-sweep', nontrivial=nt_rollback_restored, chunk=1,
          follow=0, weight=0.3, only_calls=['makedirs'], crash_end=True,
          torn=False, sweep_max={'quick': 2, 'thorough': None}))
+CAMPAIGNS['C06'].append(camp(
+    'c06-nested-fail', 'C06',
+    dict(NESTED_FAIL, p_version_change=0.7, p_weird_names=0.3,
+         p_clean_step=0.0, p_mutate_step=0.2, n_steps=(3, 7), p_catch=0.9),
+    'version changes over chains of nested build_file / subbuild calls '
+    'whose levels fail and are caught (the record of a raised operation '
+    'keeps what it did after a caught failure), also with functions sharing '
+    'a name', post='tag_versions', weight=0.8))
+CAMPAIGNS['C06'].append(camp(
+    'c06-shared-names', 'C06',
+    dict(VERSION_HEAVY, p_weird_names=0.8, max_nest=4, w_bf=34, w_sb=30),
+    'call graphs in which several functions are registered under one name '
+    '(recursive / same-named nesting): a version change of a function that '
+    'is only reached below a same-named call', post='tag_versions',
+    weight=0.6))
 RACE_RULE = ('a key (build_file path / subbuild name+arguments) performed '
              'directly by one thread while another thread reuses or '
              're-executes a cached subtree (depth 1-2) that contains it; '
